@@ -87,7 +87,11 @@ class SimJob:
         self.killed_at = None
         self.timing = timing
         self.frozen_until = None
-        if self.submit_ok:
+        if self.submit_ok and self.final == 'subvanish':
+            # accepted by the job runner, then gone from it before starting:
+            # no message ever; polls find nothing in the queue and no status
+            self.t_end = t_submit + timing['queue']
+        elif self.submit_ok:
             self.t_start = t_submit + timing['queue']
             t = self.t_start
             for i, _ in enumerate(self.outputs):
@@ -291,6 +295,8 @@ class World:
 
     def _schedule_job_messages(self, job):
         """Queue the messages this job will send, with network faults."""
+        if job.final == 'subvanish':
+            return
         msgs = [(job.t_start, 'INFO', 'started')]
         for m, t in zip(job.outputs, job.out_times):
             msgs.append((t, 'INFO', m))
@@ -434,7 +440,7 @@ class World:
                         ctx.run_signal = 'TERM'
                         ctx.time_run_exit = iso(CLOCK.epoch + job.end_time())
                     ctx.job_runner_exit_polled = 1
-                elif fin == 'vanish':
+                elif fin in ('vanish', 'subvanish'):
                     ctx.job_runner_exit_polled = 1
                 else:
                     ctx.job_runner_exit_polled = 0
